@@ -30,13 +30,18 @@ import (
 // layers:  B batched | S:<prefix hex> skipkeys | N nokeyiserr | R readonlystore |
 //          E:<codes, dot separated> skiperrors listing these error codes | F:<n> fallible with
 //          SetWriteCount(n) | C cachedproducer store | X:<prefix hex>:<code> test double: Has/Get/Put/
-//          Delete on keys with the prefix fail with error <code> | base: M (memorydb) or Z (devnulldb)
-// error codes: 1 kvdb.ErrUnsupportedOp, 2 "not found" (nokeyiserr), 3 and 4 injected, 9 anything else
+//          Delete on keys with the prefix fail with error <code> | base: M (memorydb double: Close is a no-op,
+//          Drop empties), m (the REAL memorydb: Close empties and closes, Drop needs a closed store) or Z (devnulldb)
+// error codes: 1 kvdb.ErrUnsupportedOp, 2 "not found" (nokeyiserr), 3 and 4 injected, 5 cachedproducer
+// "called Close more times than OpenDB", 6 "database closed", 9 anything else
 // ops (all at the top of the stack unless a depth d is given):
 //   P k v | D k | G k | H k | I prefix start | BN b | BP b k v | BD b k | BW b | BR b |
-//   SN i | SG i k | SH i k | SI i prefix start | FL d | MF d | SC d n | CL | DR
+//   SN i | SG i k | SH i k | SI i prefix start | FL d | MF d | SC d n | CL | DR |
+//   LW d / LR d / LP d (batched.Store.Write / Reset / Replay of the layer at depth d) | GC d (fallible.GetWriteCount) |
+//   RO d (OpenDB of the same name again on the cachedproducer of the layer at depth d)
+// nothing is terminal: after Close / Drop the history goes on (use after close, second Close, ...)
 // observation per op: ok | e<code> | panic ; v:<hex> | nil ; 1 | 0 ; [k:v,...] ; - (no such slot / after
-// the end) ; CL/DR: end:<result>:<contents of the base store>
+// the end) ; CL/DR: end:<result>:<contents of the base store> ; LP: {k=v,k=~} ; GC: n:<count>
 
 var (
 	c23xErr3 = errors.New("injected error three")
@@ -67,6 +72,10 @@ func c23xCode(err error) string {
 		return "e3"
 	case err == c23xErr4:
 		return "e4"
+	case err.Error() == "called Close more times than OpenDB":
+		return "e5"
+	case err.Error() == "database closed":
+		return "e6"
 	}
 	return "e9"
 }
@@ -80,9 +89,41 @@ type c23xBase struct {
 }
 
 func (b *c23xBase) Close() error { return nil }
-func (b *c23xBase) Drop()        { b.Store = memorydb.New(); b.dropped = true }
+func (b *c23xBase) Drop() { // empties the same instance (batches created earlier keep pointing to it)
+	it := b.Store.NewIterator(nil, nil)
+	var keys [][]byte
+	for it.Next() {
+		keys = append(keys, append([]byte{}, it.Key()...))
+	}
+	it.Release()
+	for _, k := range keys {
+		_ = b.Store.Delete(k)
+	}
+	b.dropped = true
+}
 func (b *c23xBase) NewBatch() kvdb.Batch {
 	return &c23xScaled{Batch: b.Store.NewBatch(), scale: b.scale}
+}
+
+// the real memorydb, only its batches report a scaled ValueSize
+type c23xRealMem struct {
+	kvdb.Store
+	scale int
+}
+
+func (b *c23xRealMem) NewBatch() kvdb.Batch {
+	return &c23xScaled{Batch: b.Store.NewBatch(), scale: b.scale}
+}
+
+type c23xRecorder struct{ ops []string }
+
+func (r *c23xRecorder) Put(k, v []byte) error {
+	r.ops = append(r.ops, vu.Hex(k)+"="+vu.Hex(v))
+	return nil
+}
+func (r *c23xRecorder) Delete(k []byte) error {
+	r.ops = append(r.ops, vu.Hex(k)+"=~")
+	return nil
 }
 
 type c23xScaled struct {
@@ -175,6 +216,7 @@ func c23xRun(in []string) []string {
 	layers := strings.Split(header[2], ",")
 	// build bottom-up
 	var base *c23xBase
+	var realBase kvdb.Store
 	var cur kvdb.Store
 	objs := make([]interface{}, len(layers)) // by depth
 	for i := len(layers) - 1; i >= 0; i-- {
@@ -184,13 +226,20 @@ func c23xRun(in []string) []string {
 		case "M":
 			base = &c23xBase{Store: memorydb.New(), scale: scale}
 			cur = base
+		case "m":
+			realBase = memorydb.New()
+			cur = &c23xRealMem{Store: realBase, scale: scale}
 		case "Z":
 			cur = devnulldb.New()
 		case "B":
 			b := batched.Wrap(cur)
 			objs[i], cur = b, b
 		case "S":
-			cur = skipkeys.Wrap(cur, vu.UnHex(f[1]))
+			if i%2 == 0 {
+				cur = skipkeys.Wrap(cur, vu.UnHex(f[1]))
+			} else { // through the producer wrapper
+				cur, _ = skipkeys.WrapProducer(c23xOneProducer{cur}, vu.UnHex(f[1])).OpenDB("x")
+			}
 		case "N":
 			cur = nokeyiserr.Wrap(cur)
 		case "R":
@@ -209,8 +258,9 @@ func c23xRun(in []string) []string {
 			fl.SetWriteCount(n)
 			objs[i], cur = fl, fl
 		case "C":
-			s, _ := cachedproducer.Wrap(c23xOneProducer{cur}).OpenDB("x")
-			cur = s
+			cp := cachedproducer.Wrap(c23xOneProducer{cur})
+			s, _ := cp.OpenDB("x")
+			objs[i], cur = cp, s
 		case "X":
 			cur = &c23xErrStore{Store: cur, bad: vu.UnHex(f[1]), err: c23xErrOf(f[2])}
 		}
@@ -218,7 +268,6 @@ func c23xRun(in []string) []string {
 	top := cur
 	batches := map[string]kvdb.Batch{}
 	snaps := map[string]kvdb.Snapshot{}
-	dead := false
 	var obs []string
 	one := func(o []string) (res string) {
 		defer func() {
@@ -313,6 +362,42 @@ func c23xRun(in []string) []string {
 				}
 			}
 			return "ok"
+		case "LW", "LR", "LP":
+			d, _ := strconv.Atoi(o[1])
+			if d < len(objs) {
+				if b, ok := objs[d].(*batched.Store); ok {
+					switch o[0] {
+					case "LW":
+						return c23xCode(b.Write())
+					case "LR":
+						b.Reset()
+						return "ok"
+					}
+					rec := &c23xRecorder{}
+					_ = b.Replay(rec)
+					return "{" + strings.Join(rec.ops, ",") + "}"
+				}
+			}
+			if o[0] == "LR" {
+				return "ok"
+			}
+			return "-"
+		case "GC":
+			d, _ := strconv.Atoi(o[1])
+			if d < len(objs) {
+				if f, ok := objs[d].(*fallible.Fallible); ok {
+					return "n:" + strconv.Itoa(f.GetWriteCount())
+				}
+			}
+			return "-"
+		case "RO":
+			d, _ := strconv.Atoi(o[1])
+			if d < len(objs) {
+				if cp, ok := objs[d].(*cachedproducer.DBProducer); ok {
+					_, _ = cp.OpenDB("x")
+				}
+			}
+			return "ok"
 		case "SC":
 			d, _ := strconv.Atoi(o[1])
 			n, _ := strconv.Atoi(o[2])
@@ -326,7 +411,7 @@ func c23xRun(in []string) []string {
 		return "-"
 	}
 	for _, o := range ops {
-		if len(o) == 0 || dead {
+		if len(o) == 0 {
 			obs = append(obs, "-")
 			continue
 		}
@@ -347,9 +432,10 @@ func c23xRun(in []string) []string {
 			dump := ""
 			if base != nil {
 				dump = c25Dump(base.Store)
+			} else if realBase != nil {
+				dump = c25Dump(realBase)
 			}
 			obs = append(obs, "end:"+res+":"+dump)
-			dead = true
 			continue
 		}
 		obs = append(obs, one(o))
@@ -367,10 +453,24 @@ func c23xGen(r *rand.Rand, n int, tier string, emit func(...string)) {
 	for i := 0; i < n; i++ {
 		scale := []int{1, 15000, 30000, 60000}[r.Intn(4)]
 		depth := 1 + r.Intn(4)
+		// 40% of the cases stay inside the domain of the write theorems (batched / skipkeys / nokeyiserr /
+		// cached / readonly over the memorydb double, no batch writes, Drop, layer Write/Reset, re-open):
+		// there the driver checks every read against the ordered-map specification
+		domain := r.Intn(5) < 2
+		if domain {
+			vu.Stat("theorem_domain_case")
+		}
 		var layers []string
 		nB, nF := 0, 0
 		for j := 0; j < depth; j++ {
-			switch r.Intn(9) {
+			kind := r.Intn(9)
+			if domain {
+				kind = []int{0, 0, 1, 2, 2, 3, 8, 8, 4}[r.Intn(9)]
+				if kind == 4 && r.Intn(3) != 0 {
+					kind = 0
+				}
+			}
+			switch kind {
 			case 0, 1:
 				layers = append(layers, "B")
 				nB++
@@ -379,7 +479,7 @@ func c23xGen(r *rand.Rand, n int, tier string, emit func(...string)) {
 			case 3:
 				layers = append(layers, "N")
 			case 4:
-				if r.Intn(2) == 0 {
+				if domain || r.Intn(2) == 0 {
 					layers = append(layers, "R")
 				} else {
 					layers = append(layers, "C")
@@ -395,9 +495,14 @@ func c23xGen(r *rand.Rand, n int, tier string, emit func(...string)) {
 				layers = append(layers, "C")
 			}
 		}
-		if r.Intn(10) == 0 {
+		switch x := r.Intn(10); {
+		case domain:
+			layers = append(layers, "M")
+		case x == 0:
 			layers = append(layers, "Z")
-		} else {
+		case x < 4:
+			layers = append(layers, "m")
+		default:
 			layers = append(layers, "M")
 		}
 		in := []string{"kw", strconv.Itoa(scale), strings.Join(layers, ",")}
@@ -408,7 +513,15 @@ func c23xGen(r *rand.Rand, n int, tier string, emit func(...string)) {
 		for j := 0; j < nops; j++ {
 			in = append(in, ";")
 			k := pick(c23xKeys)
-			switch x := r.Intn(40); {
+			x := r.Intn(40)
+			if domain && (x == 29 || x >= 36) { // no BW, layer Write/Reset, Drop, re-open: reads, flushes, close instead
+				x = []int{12, 18, 21, 36, 36, 40}[r.Intn(6)]
+			}
+			switch {
+			case x == 40:
+				in = append(in, "CL")
+			case domain && x == 36:
+				in = append(in, pick([]string{"FL", "MF"}), strconv.Itoa(r.Intn(depth)))
 			case x < 9:
 				in = append(in, "P", k, pick(c23xVals))
 			case x < 12:
@@ -438,14 +551,40 @@ func c23xGen(r *rand.Rand, n int, tier string, emit func(...string)) {
 			case x < 36:
 				in = append(in, "SI", strconv.Itoa(r.Intn(2)), pick([]string{"-", "6b", "61"}), "-")
 			case x < 38:
-				in = append(in, pick([]string{"FL", "MF"}), strconv.Itoa(r.Intn(depth)))
+				in = append(in, pick([]string{"FL", "FL", "MF", "MF", "LW", "LR", "LP"}), strconv.Itoa(r.Intn(depth)))
 			default:
-				in = append(in, "SC", strconv.Itoa(r.Intn(depth)), strconv.Itoa(r.Intn(5)))
+				switch r.Intn(8) {
+				case 0, 1:
+					in = append(in, "CL")
+				case 2:
+					in = append(in, "DR")
+				case 3, 4:
+					in = append(in, "RO", strconv.Itoa(r.Intn(depth)))
+				case 5:
+					in = append(in, "GC", strconv.Itoa(r.Intn(depth)))
+				default:
+					in = append(in, "SC", strconv.Itoa(r.Intn(depth)), strconv.Itoa(r.Intn(5)))
+				}
 			}
 		}
-		if r.Intn(3) != 0 {
-			in = append(in, ";", pick([]string{"CL", "CL", "CL", "DR"}))
-			in = append(in, ";", "G", pick(c23xKeys))
+		if domain {
+			in = append(in, ";", "CL", ";", "I", "-", "-")
+		} else if r.Intn(3) != 0 { // the end of a store's life, and what happens after it
+			for q := 1 + r.Intn(4); q > 0; q-- {
+				in = append(in, ";", pick([]string{"CL", "CL", "CL", "DR", "DR"}))
+				switch r.Intn(5) {
+				case 0:
+					in = append(in, ";", "G", pick(c23xKeys))
+				case 1:
+					in = append(in, ";", "P", pick(c23xKeys), "31")
+				case 2:
+					in = append(in, ";", "I", "-", "-")
+				case 3:
+					in = append(in, ";", pick([]string{"H", "D"}), pick(c23xKeys))
+				default:
+					in = append(in, ";", pick([]string{"SN", "BN"}), "0", ";", "BW", "0")
+				}
+			}
 		}
 		_ = fmt.Sprint
 		emit(in...)
